@@ -158,6 +158,7 @@ func (P *Program) registerIntrinsics() {
 	P.registerVHDB()
 	P.registerWriteStmts()
 	P.registerGin()
+	P.registerGinCompare()
 	P.registerCSV()
 }
 
